@@ -220,6 +220,13 @@ def std_lattice(sg):
     return np.array([[F(float(v)).limit_denominator(10 ** 6) for v in row] for row in lat], dtype=object)
 
 
+def supercell_perm(n, mode):
+    """order of the 2n atoms of the 2x1x1 supercell (i = atom of the first cell, i + n = its translate)"""
+    if mode == "interleaved":
+        return [i + s * n for i in range(n) for s in (0, 1)]
+    return list(range(2 * n))
+
+
 def make_dataset(e, sg, occupation, tag="", transform=None, order=None, wrap=True, concrete_params=None, orig_order=None, orig_supercell=False):
     """SpglibContract: the dataset spglib documents for a crystal of space group `sg` given in its standard setting with
     the orbits `occupation` = [(letter, Z)] occupied at symbolic generic parameters.  `transform` (4x4 key) moves the
@@ -315,10 +322,24 @@ def make_dataset(e, sg, occupation, tag="", transform=None, order=None, wrap=Tru
         co = np.asarray(ds["crystallographic_orbits"])
         ds["crystallographic_orbits"] = np.concatenate([co, co])
         # spglib's `equivalent_atoms` reflects the symmetry of the *input* cell and may split a crystallographic orbit for a
-        # supercell of lower lattice symmetry: the contract hands out a proper refinement (second copy in classes of its own)
-        ds["equivalent_atoms"] = np.concatenate([co, co + n])
+        # supercell of lower lattice symmetry: the contract hands out the finest admissible partition (an atom is equivalent
+        # to its own translate in the second cell only), so code that reads it in place of the orbits is visible
+        ds["equivalent_atoms"] = np.concatenate([np.arange(n), np.arange(n)])
         mp = np.asarray(ds["mapping_to_primitive"])
         ds["mapping_to_primitive"] = np.concatenate([mp, mp])
+        if orig_supercell == "interleaved":
+            # the same supercell with the two copies of every atom listed next to each other (0, 0', 1, 1', ...): the first
+            # n atoms are then *not* one complete standardized cell
+            perm = supercell_perm(n, orig_supercell)
+            inv_p = {old: new for new, old in enumerate(perm)}
+            ds["orig_positions"] = ds["orig_positions"][perm]
+            ds["orig_types"] = ds["orig_types"][perm]
+            ds["wyckoffs"] = [ds["wyckoffs"][i] for i in perm]
+            for k_ in ("crystallographic_orbits", "equivalent_atoms"):
+                arr = ds[k_]
+                ds[k_] = np.array([min(inv_p[j] for j in range(2 * n) if arr[j] == arr[i]) for i in perm])
+            # primitive atoms numbered in order of first appearance: unchanged by this interleaving
+            ds["mapping_to_primitive"] = ds["mapping_to_primitive"][perm]
         lat2 = np.array(ds["std_lattice"], dtype=object).copy()
         lat2[0] = lat2[0] * 2
         ds["orig_lattice"] = lat2
